@@ -84,6 +84,20 @@ def random_flat(rng, *, n_nodes=(2, 5), cyclic=0.35, gate=0.6, multi_out=0.25, s
                 script = [[rng.choice(targets + [IR.NONE])] for _ in range(3)]
             g = IR.route(gname, gin, targets, script, multi=multi, fallback=fb, default_open=rng.random() < 0.5)
         nodes.insert(rng.randint(0, len(nodes)), g)
+    # ordering signals: emit on a producer, wait_for on another node (a signal or a data name)
+    ns = 0
+    while rng.random() < emit and ns < 2 and len(nodes) >= 2:
+        ns += 1
+        pi, wi = rng.sample(range(len(nodes)), 2)
+        P, W = nodes[pi], nodes[wi]
+        if rng.random() < 0.75 or not P["outputs"][: P["ndata"]]:
+            sig = f"sig{ns}"
+            P["outputs"] = P["outputs"] + [sig]
+        else:
+            sig = rng.choice(P["outputs"][: P["ndata"]])
+        if sig in W["inputs"] or sig in W["wait_for"] or sig in W["outputs"]:
+            continue
+        W["wait_for"] = W["wait_for"] + [sig]
     _fix_defaults(nodes, dparams)
     used = {p for n in nodes for p in n["inputs"]}
     outs = {o for n in nodes for o in n["outputs"]}
@@ -242,5 +256,120 @@ def loop_template(m, shape, gatekind, exit_node, n_cont, entry=1, nested=False, 
         seed = [["s", "P.s0(x=in.x)"]]
         frame = "loop"
     meta = {"shape": shape, "body": names, "gate": "G", "exit": "E" if exit_node else IR.NONE,
-            "entry": entry, "frame": frame, "seed": seed, "n_cont": n_cont}
+            "entry": entry, "frame": frame, "seed": seed, "n_cont": n_cont, "expect": []}
     return prog, provided, meta
+
+
+def oneshot_template(dopen, gatekind="route"):
+    """A gate synchronised on a signal that is emitted only once.  After its first decision the
+    gate's input changes (so the decision is stale) but the signal never becomes fresh again: the
+    single decision must allow a single execution of the target - the stale decision may not keep
+    the cycle A -> B -> A spinning."""
+    P = IR.normalize_node(dict(name="P", kind="func", inputs=["x"], outputs=["p", "sig1"], ndata=1))
+    A = IR.func("A", ["e"], ["d"])
+    B = IR.func("B", ["d"], ["e"])
+    if gatekind == "ifelse":
+        G = IR.ifelse("G", ["d"], "B", "END", [["B"]], default_open=dopen, wait_for=["sig1"])
+    else:
+        G = IR.route("G", ["d"], ["B", "END"], [["B"]], default_open=dopen, wait_for=["sig1"])
+    prog = IR.prog("top", [P, A, G, B], max_iter=30)
+    # sequential reading: A; gate says B; B; A; (gate cannot decide again)  =>  A twice, B once, G once
+    meta = {"shape": "oneshot", "body": ["B"], "gate": "G", "exit": IR.NONE, "entry": 1, "frame": "",
+            "seed": [["x", "in.x"], ["e", "in.e"]], "n_cont": 1,
+            "expect": [["B", 1 if not dopen else 1], ["G", 1], ["A", 2], ["P", 1]]}
+    return prog, [["x", "in.x"], ["e", "in.e"]], meta
+
+
+# ---------------------------------------------------------------------------
+# nesting: wrap a node subset of a flat program into a nested graph used as one node
+# ---------------------------------------------------------------------------
+
+def convex_subsets(prog, max_size=None):
+    """All non-empty proper node-name subsets S that are dependency-closed (convex): no path between
+    two members leaves S.  Data dependencies by name (acyclic gate-free programs)."""
+    nodes = prog["nodes"]
+    names = [n["name"] for n in nodes]
+    prod = {o: n["name"] for n in nodes for o in n["outputs"]}
+    succ = {n: set() for n in names}
+    for n in nodes:
+        for p in n["inputs"] + n["wait_for"]:
+            if p in prod and prod[p] != n["name"]:
+                succ[prod[p]].add(n["name"])
+
+    def reach(a):
+        seen, st = set(), [a]
+        while st:
+            x = st.pop()
+            for y in succ[x]:
+                if y not in seen:
+                    seen.add(y)
+                    st.append(y)
+        return seen
+    R = {n: reach(n) for n in names}
+    for k in range(1, (max_size or len(names) - 1) + 1):
+        for S in itertools.combinations(names, k):
+            Sset = set(S)
+            ok = True
+            for a in S:
+                for x in R[a] - Sset:          # x outside S reachable from a
+                    if R[x] & Sset:            # ... and leads back into S
+                        ok = False
+                        break
+                if not ok:
+                    break
+            if ok and len(Sset) < len(names):
+                yield list(S)
+
+
+def nest(prog, S, name="inner", rename_in=None, rename_out=None, inner_bound=None, pos=None, selected=None):
+    """Wrap the nodes named in S into a nested graph `name`.  rename_in / rename_out are LOCAL
+    alpha-renamings of the inner graph {outer name: inner name} that the wrapper undoes with
+    with_inputs / with_outputs, so the outer interface is unchanged.  inner_bound: outer names to
+    bind INSIDE the nested graph instead of at the outer level."""
+    rename_in = rename_in or {}
+    rename_out = rename_out or {}
+    ren = dict(rename_in)
+    ren.update(rename_out)
+    inner_nodes, rest = [], []
+    for n in prog["nodes"]:
+        (inner_nodes if n["name"] in S else rest).append(copy_node(n))
+    produced_in = {o for n in inner_nodes for o in n["outputs"]}
+    ext_in = []
+    for n in inner_nodes:
+        for p in n["inputs"]:
+            if p not in produced_in and p not in ext_in:
+                ext_in.append(p)
+    # apply the local renaming inside
+    for n in inner_nodes:
+        n["inputs"] = [ren.get(p, p) for p in n["inputs"]]
+        n["pmap"] = [[ren.get(c, c), o] for c, o in n["pmap"]]
+        n["defaults"] = [ren.get(p, p) for p in n["defaults"]]
+        n["outputs"] = [ren.get(o, o) for o in n["outputs"]]
+        n["wait_for"] = [ren.get(w, w) for w in n["wait_for"]]
+    outs = []
+    for n in inner_nodes:
+        for o in n["outputs"]:
+            if o not in outs:
+                outs.append(o)
+    inv = {v: k for k, v in ren.items()}
+    ib = []
+    ob = []
+    for b, v in prog["bound"]:
+        if inner_bound and b in inner_bound and b in ext_in:
+            ib.append([ren.get(b, b), v])
+        else:
+            ob.append([b, v])
+    sub = IR.prog(name, inner_nodes, bound=ib, max_iter=1000, selected=[ren.get(o, o) for o in selected] if selected else None)
+    exposed = sub["selected"] if sub["selected"] != IR.UNSET else outs
+    gn = IR.graph_node(sub, name=name,
+                       inputs=list(ext_in), inmap=[[p, ren.get(p, p)] for p in ext_in],
+                       outputs=[inv.get(o, o) for o in exposed], outmap=[[o, inv.get(o, o)] for o in exposed])
+    k = len(rest) if pos is None else pos
+    p2 = IR.prog(prog["name"], rest[:k] + [gn] + rest[k:], bound=ob, selected=None if prog["selected"] == IR.UNSET else prog["selected"],
+                 entry=prog["entry"], max_iter=prog["max_iter"])
+    return p2
+
+
+def copy_node(n):
+    import copy as _c
+    return _c.deepcopy(n)
